@@ -27,6 +27,9 @@ THEOREMS = ["Names.resolve_direct_import", "Names.resolve_module_alias", "Names.
             # find_object's bare-name fall-back (fixed in /repo 996ac8b): historical counterexample over findObjectOld, and the
             # same project now inside WFr and order independent
             "Imports.find_object_bare_name_counterexample", "Imports.hidden_cycle_order_independent",
+            # a submodule re-exported through a star import is processed before it is moved (/repo ec6815d): historical step
+            # handleReExportOld, and the witness order independent now
+            "Imports.star_module_reexport_counterexample", "Imports.star_module_order_independent",
             "Imports.reexport_sound_bounded", "Imports.ResolveSoundReexport.order_independent",
             # lemmas of PdProps/C04.lean they rest on (the layers below are PdProps/C04Base.lean and C04Clean.lean)
             "Imports.alias_of_stmt", "Imports.def_registered", "Imports.walk_path"]
@@ -491,6 +494,7 @@ def run(ctx: Ctx) -> None:
     replay_hidden_cycle_witness(ctx)
     replay_early_mro_witness(ctx)
     replay_star_module_witness(ctx)
+    replay_class_member_reexport_witness(ctx)
     replay_witnesses(ctx)
 
 
@@ -761,9 +765,14 @@ def run_reexport_sound(ctx: Ctx) -> None:
             answers.append(ans)
         for a in answers[1:]:
             if a != answers[0]:
-                diff = next((x, y) for x, y in zip(answers[0], a) if x != y)
-                ctx.fail("order-dependent:reexport-shape", {"units": src, "orders": ords},
-                         f"resolution depends on the processing order: {diff[0]} vs {diff[1]}")
+                diffs = [(x, y) for x, y in zip(answers[0], a) if x != y]
+                two = [d for d in diffs if d[0][2] is not None and d[1][2] is not None]
+                if two:         # two different objects: against resolve_order_independent_reexport
+                    ctx.fail("order-dependent:reexport-shape", {"units": src, "orders": ords},
+                             f"resolution depends on the processing order: {two[0][0]} vs {two[0][1]}")
+                else:           # resolved under one order, not at all under another (both allowed by C04's statement)
+                    ctx.fail("order-dependent:reexport-shape:unresolved-in-one-order", {"units": src, "orders": ords},
+                             f"whether the name is resolved depends on the processing order: {diffs[0][0]} vs {diffs[0][1]}")
                 break
     compare_lines(ctx, "imports-build-shape", b_reqs, b_impl, b_pay)
     # --- the C07 scenarios (annotated variables dropped: the abstract syntax has no annotated assignment)
@@ -875,10 +884,12 @@ def replay_early_mro_witness(ctx: Ctx) -> None:
 
 
 def replay_star_module_witness(ctx: Ctx) -> None:
-    """a SUBMODULE re-exported through a star import (`q/__init__.py`: `from p import *` ; `__all__ = ['sub']`): `_importAll`,
-    unlike `_importNames`, does not process the submodule before `_handleReExport` moves it, so a `p.sub` that is still
-    unprocessed is analysed as `q.sub` and its relative imports are resolved against `q` (open finding
-    order-dependent:star-reexport-unprocessed-module; outside WFr: a module is moved, star import next to __all__)"""
+    """a SUBMODULE re-exported through a star import (`q/__init__.py`: `from p import *` ; `__all__ = ['sub']`): before /repo
+    ec6815d `_importAll`, unlike `_importNames`, did not process the submodule before `_handleReExport` moved it, so a `p.sub`
+    that was still unprocessed was analysed as `q.sub` and its relative imports were resolved against `q` (finding
+    order-dependent:star-reexport-unprocessed-module, fixed; outside WFr: a module is moved, star import next to __all__).
+    Now `p.x.PX` under both orders (Imports.star_module_order_independent; historical step:
+    Imports.star_module_reexport_counterexample)."""
     units = [Unit("p", True, "", None), Unit("p.x", False, "class PX:\n    '''ID:PX'''\n", "p"),
              Unit("p.sub", False, "from .x import PX\n", "p"),
              Unit("q", True, "from p import *\n__all__ = ['sub']\n", None),
@@ -893,7 +904,7 @@ def replay_star_module_witness(ctx: Ctx) -> None:
         system, mods, dup = build_real(units, order)
         r = mods[2].resolveName("PX")
         got.append(None if r is None else r.docstring)
-        if toks is not None:        # the Lean model of the building code follows the code as it is (defect included)
+        if toks is not None:        # the Lean model of the building code (Imports.processBeforeMove)
             reqs.append("imports build " + " ".join(toks) + " O|" + ",".join(map(str, order)) + " ? R|2|-|" + enc("PX"))
             impls.append("ok bad=%s | %s | %s" % ("true" if dup else "false", pd_dump(system), pd_answer(mods[2], "PX")))
             pay.append({"units": {u.qname: u.source for u in units}, "order": order})
@@ -911,6 +922,31 @@ def replay_star_module_witness(ctx: Ctx) -> None:
                  "q is processed first; Python binds it to p.x.PX" % (got[0], got[1]))
     else:
         ctx.count("witness:star-module:sound-now")
+
+
+def replay_class_member_reexport_witness(ctx: Ctx) -> None:
+    """`_handleReExport` since /repo 66cb133: a re-exported name that resolves to a MEMBER of a class stays in its class and the
+    import is an ordinary alias (Imports.notModuleLevel). In the abstract syntax such a name is an alias `from m.C import meth`
+    (pydoctor records `meth -> m.C.meth`; not importable, so this is model vs System only)."""
+    units = [Unit("m", False, "class C:\n    QQ3ID:CQQ3\n    def meth(self):\n        QQ3ID:methQQ3\n".replace("QQ3", "'" * 3), None),
+             Unit("t", False, "from m.C import meth\n", None),
+             Unit("pkg", True, "from t import meth\n__all__ = ['meth']\n", None)]
+    try:
+        toks, _info = abstract_project(units, pd_only=True)
+    except Unsupported as e:
+        ctx.count("witness:class-member-reexport:unsupported:" + str(e))
+        return
+    reqs, impls, pay = [], [], []
+    for order in ([0, 1, 2], [2, 1, 0]):
+        system, mods, dup = build_real(units, order)
+        names = ["meth", "C.meth"]
+        qs = ["R|%d|-|%s" % (m, enc(d)) for m in range(3) for d in names]
+        ans = [pd_answer(mods[m], d) for m in range(3) for d in names]
+        reqs.append("imports build " + " ".join(toks) + " O|" + ",".join(map(str, order)) + " ? " + " ".join(qs))
+        impls.append("ok bad=%s | %s | %s" % ("true" if dup else "false", pd_dump(system), " ".join(ans)))
+        pay.append({"units": {u.qname: u.source for u in units}, "order": order})
+        ctx.case("witness:class-member-reexport", True, {"where": sorted(k for k in system.allobjects if k.endswith("meth"))})
+    compare_lines(ctx, "imports-build-class-member-reexport", reqs, impls, pay)
 
 
 def replay_witnesses(ctx: Ctx) -> None:
